@@ -110,6 +110,17 @@ func (m *c17Model) setKey(key string, from uint64, proj string) {
 	m.keyTL[key] = append(tl, c17Ev{from, proj})
 }
 
+// reincarnated reports whether the ledger saw the project end or start after block `from` and up
+// to block `to`.
+func (m *c17Model) reincarnated(proj string, from, to uint64) bool {
+	for _, e := range m.projTL[proj] {
+		if e.from > from && e.from <= to {
+			return true
+		}
+	}
+	return false
+}
+
 func (m *c17Model) setProj(proj string, from uint64, alive bool) {
 	m.projTL[proj] = append(m.projTL[proj], c17PEv{from, alive})
 }
@@ -703,6 +714,12 @@ func (s *Sim) opC17Relay() {
 		for i, a := range after {
 			b := before[id][i]
 			if !b.found || !a.found || a.snap != b.snap {
+				continue
+			}
+			if id == resolved.Index && m.reincarnated(id, epoch, a.block) {
+				// deleted and created again between the relay's epoch and this block: a different
+				// project that merely reuses the name (its snapshot counter restarts), no expectation
+				r.Probe("c17_relay_for_earlier_incarnation")
 				continue
 			}
 			want := b.used
